@@ -1,6 +1,7 @@
 import Dmn.Model.Sexp
 import Dmn.Model.Lexer
 import Dmn.Model.LexerSpec
+import Dmn.Gen.BifNames
 
 /-!
 Driver handler for C10 (and the lexer part of C05):
@@ -11,6 +12,7 @@ Driver handler for C10 (and the lexer part of C05):
   `(panic site)` or `(fuelout)`.
 * `(c10 resolve (bound…) text)` — the specification `specResolve`: `(some name len)` / `(none)`.
 * `(c10 namenew (part…))` — `((s Name::new) (s flatten_name_parts))`.
+* `(c10 bifnames)` — the names `Bif::from_str` accepts (regenerated table `Dmn.Gen.bifNames`), each as `(s cp…)`.
 -/
 
 namespace Dmn.Driver.C10
@@ -77,6 +79,8 @@ def handle (args : List Sexp) : String :=
     match cpsList? parts with
     | some parts => toString (Sexp.list [ofCps (nameNew parts), ofCps (flattenNameParts parts)])
     | none => "(error bad-args)"
+  | [.atom "bifnames"] =>
+    toString (Sexp.list (Dmn.Gen.bifNames.map (fun p => ofCps (p.1.toList.map Char.toNat))))
   | _ => "(error bad-request)"
 
 end Dmn.Driver.C10
